@@ -261,11 +261,16 @@ def split_shards(cases, n):
 
 def run_sharded(cases, tag, profile="debug", want_model=True):
     """returns (impl: id -> (outcome, obs), model: id -> (outcome, obs)); C-kind cases go through the CLI"""
-    ccases = [c for c in cases if c.split("\t")[1] == "C"]
+    ccases = [c for c in cases if c.split("\t")[1] in ("C", "T")]
     if ccases:
-        rest = [c for c in cases if c.split("\t")[1] != "C"]
+        rest = [c for c in cases if c.split("\t")[1] not in ("C", "T")]
         impl, model, errs = run_sharded_(rest, tag, profile, want_model) if rest else ({}, {}, [])
-        impl.update(run_cli_cases(ccases, tag, profile))
+        impl.update(run_cli_cases([c for c in ccases if c.split("\t")[1] == "C"], tag, profile))
+        tcases = [c for c in ccases if c.split("\t")[1] == "T"]
+        if tcases:
+            with ThreadPoolExecutor(max_workers=8) as ex:
+                for c, r in zip(tcases, ex.map(lambda c: run_tcp_case(c.split("\t"), profile), tcases)):
+                    impl[c.split("\t")[0]] = r
         if want_model:
             _, m2, e2 = run_sharded_(ccases, tag + "c", profile, True, want_impl=False)
             model.update(m2)
@@ -398,6 +403,109 @@ def run_cli_cases(cases, tag, profile="debug", timeout=60):
             res[cid] = r
     shutil.rmtree(d, ignore_errors=True)
     return res
+
+
+def free_port():
+    import socket
+    s = socket.socket()
+    s.bind(("127.0.0.1", 0))
+    p = s.getsockname()[1]
+    s.close()
+    return p
+
+
+def run_tcp_case(parts, profile="debug"):
+    """T-kind: scripted loopback peer.  Segment time field = event type:
+       0 healthy (kept open), 1 frames then close, 2 frames + partial line then RST, 3 refuse, 4 junk bytes then close, 5 accept+close.
+       returns (outcome, obs) with obs = 'keys=..;gaps=..;alive=..;conns=..' """
+    import socket, struct, pyspec
+    exe = os.path.join(TARGET, profile, "squitterator")
+    port = free_port()
+    events = []
+    for s in parts[3].split(";"):
+        if not s:
+            continue
+        t, rest = s.split(":", 1)
+        if rest.startswith("!"):
+            data = bytes.fromhex(rest[1:])
+        else:
+            data = b"".join((b"\n" if l == "." else bytes.fromhex(l) + b"\n") for l in rest.split(",") if l != "")
+        events.append((int(t), data))
+    args = cli_args(parts[2], "unused")
+    args = [a for a in args if a not in ("-s", "unused")]
+    srv = None
+
+    def listen():
+        ls = socket.socket()
+        ls.setsockopt(socket.SOL_SOCKET, socket.SO_REUSEADDR, 1)
+        ls.bind(("127.0.0.1", port))
+        ls.listen(4)
+        ls.settimeout(9.0)
+        return ls
+
+    first = events[0][0] if events else 0
+    if first != 3:
+        srv = listen()
+    proc = subprocess.Popen([exe, "-t", "127.0.0.1:%d" % port] + args, stdout=subprocess.PIPE, stderr=subprocess.PIPE)
+    t_last = time.time()
+    gaps, accepted, keep = [], 0, []
+    outcome = "ok"
+    try:
+        for typ, data in events:
+            if typ == 3:
+                if srv is not None:
+                    srv.close()
+                    srv = None
+                time.sleep(1.2)          # the client's attempt is refused meanwhile
+                srv = listen()
+                t_ref = time.time()
+                continue
+            if srv is None:
+                srv = listen()
+            try:
+                c, _ = srv.accept()
+            except socket.timeout:
+                outcome = "noconnect"
+                break
+            now = time.time()
+            gaps.append(round(now - t_last, 2))
+            accepted += 1
+            if typ == 5:
+                c.close()
+            elif typ in (1, 4):
+                c.sendall(data)
+                time.sleep(0.3)
+                c.close()
+            elif typ == 2:
+                # complete lines first, then a partial line, then a reset
+                c.sendall(data)
+                time.sleep(0.4)
+                c.setsockopt(socket.SOL_SOCKET, socket.SO_LINGER, struct.pack("ii", 1, 0))
+                c.close()
+            else:
+                c.sendall(data)
+                keep.append(c)
+                time.sleep(0.6)
+            t_last = time.time()
+        alive = proc.poll() is None
+    finally:
+        time.sleep(0.2)
+        proc.kill()
+        out, err = proc.communicate()
+        for c in keep:
+            c.close()
+        if srv is not None:
+            srv.close()
+    frames = out.split(CLEAR)
+    keys = []
+    if len(frames) > 2:
+        lines = frames[-1].decode("utf-8", "replace").split("\n")
+        seps = [i for i, l in enumerate(lines) if l.startswith("------")]
+        if len(seps) >= 2:
+            keys = [l[:6] for l in lines[seps[0] + 1:seps[1]]]
+    if b"panicked" in err:
+        outcome = "panic"
+    return outcome, "keys=%s;gaps=%s;alive=%d;conns=%d" % (",".join(keys), ",".join(str(g) for g in gaps), 1 if alive else 0, accepted)
 
 
 def case_index(cases):
